@@ -133,7 +133,7 @@ CONF_PY = "extensions = ['myst_parser']\nproject = 'simproj'\nexclude_patterns =
 
 def sphinx_build(srcdir: str, outname: str, root: str, confoverrides: dict | None = None, builder: str = "xml",
                  parallel: int = 0, hooks=None, keep_app: bool = False, write_phase: bool = True,
-                 observe: str = "written"):
+                 observe: str = "written", incremental: bool = False):
     """One fresh in-process Sphinx application on ``srcdir``.
 
     Returns ``("ok", {docname: output}, sorted_warnings, extra)`` or ``("exc", signature, warnings, extra)``.
@@ -151,13 +151,13 @@ def sphinx_build(srcdir: str, outname: str, root: str, confoverrides: dict | Non
     try:
         with docutils_namespace():
             app = Sphinx(srcdir, srcdir, outdir, doctreedir, builder, confoverrides=dict(confoverrides or {}),
-                         status=status, warning=warning, freshenv=True, parallel=parallel,
+                         status=status, warning=warning, freshenv=not incremental, parallel=parallel,
                          warningiserror=False, keep_going=True)
             cfg0 = _cfg_snapshot(app)
             if hooks is not None:
                 hooks(app)
             if write_phase:
-                app.build(force_all=True)
+                app.build(force_all=not incremental)
             else:
                 app.builder.read()
             extra["cfg_before"] = cfg0
